@@ -46,7 +46,24 @@ def gen_cases(rng, tier):
         elif r < 0.8:
             k = rng.randint(1, 6 if tier == "thorough" else 5)
             sup = {f"c{j}": rng.choice([s for s in SUPPORTS if s > 0]) for j in range(k)}
-            cases.append({"kind": "bt", "supports": sup})
+            case = {"kind": "bt", "supports": sup}
+            if k >= 2 and rng.random() < 0.4:
+                # a second bloc over the same candidates: either plainly different supports, or supports that
+                # differ only far below the 1e-8 at which PreferenceInterval.__eq__ stops telling them apart
+                if rng.random() < 0.5:
+                    sup2 = {c: rng.choice([s for s in SUPPORTS if s > 0]) for c in sup}
+                else:
+                    # (three candidates at most: the exact rational value of 1e-9 has a 2^83 denominator and
+                    # the model's unreduced arithmetic over n! x n^2 products of them is slow)
+                    cs_ = list(sup)[:3]
+                    sup = {c: 1.0 for c in cs_}
+                    sup2 = dict(sup)
+                    sup[cs_[-1]], sup2[cs_[-1]] = 1e-9, 2e-9
+                    if k >= 3:
+                        sup[cs_[-2]], sup2[cs_[-2]] = 2e-9, 1e-9
+                    case["supports"] = sup
+                case["supports2"] = sup2
+            cases.append(case)
         else:
             a = rng.randint(1, 4)
             b = rng.randint(1, min(4, 7 - a))
@@ -71,7 +88,7 @@ def run_case(case):
         model.append({"op": 90, "arg": S([[nm.id(c), v] for c, v in exact.items()]), "expect": mexp,
                       "what": "PreferenceInterval: exact normalised interval (the float interval is compared by the oracle)"})
         if tot == 0:
-            if out != Err("EZeroDiv"):
+            if not common.is_err(out, "EZeroDiv"):
                 oracle.append(f"all-zero interval: expected ZeroDivisionError, got {out}")
         elif isinstance(out, Err):
             oracle.append(f"valid interval rejected: {out}")
@@ -129,13 +146,39 @@ def run_case(case):
         ex = {c: Fraction(v) for c, v in sup.items()}
         tot = sum(ex.values())
         x = {c: v / tot for c, v in ex.items()}
+        sup2 = case.get("supports2")
         with warnings.catch_warnings():
             warnings.simplefilter("ignore")
-            g = call_impl(lambda: name_BradleyTerry(candidates=cs, pref_intervals_by_bloc={"W": {"W": PreferenceInterval(dict(sup))}},
-                                                    bloc_voter_prop={"W": 1.0}, cohesion_parameters={"W": {"W": 1.0}}))
+            if sup2 is None:
+                g = call_impl(lambda: name_BradleyTerry(candidates=cs, pref_intervals_by_bloc={"W": {"W": PreferenceInterval(dict(sup))}},
+                                                        bloc_voter_prop={"W": 1.0}, cohesion_parameters={"W": {"W": 1.0}}))
+            else:
+                # two blocs whose combined intervals range over the same candidates (the second slate is one
+                # extra candidate that both blocs give cohesion 0)
+                g = call_impl(lambda: name_BradleyTerry(
+                    candidates=cs + ["zz"],
+                    pref_intervals_by_bloc={"W": {"W": PreferenceInterval(dict(sup)), "C": PreferenceInterval({"zz": 1.0})},
+                                            "C": {"W": PreferenceInterval(dict(sup2)), "C": PreferenceInterval({"zz": 1.0})}},
+                    bloc_voter_prop={"W": 0.5, "C": 0.5},
+                    cohesion_parameters={"W": {"W": 1.0, "C": 0.0}, "C": {"W": 1.0, "C": 0.0}}))
         if isinstance(g, Err):
             oracle.append(f"name_BradleyTerry construction failed: {g}")
             return {"model": [], "oracle": oracle, "tags": tags, "nontrivial": False}
+        if sup2 is not None:
+            tags.append("two-blocs")
+            ex2 = {c: Fraction(v) for c, v in sup2.items()}
+            x2 = {c: v / sum(ex2.values()) for c, v in ex2.items()}
+            t2 = g.pdfs_by_bloc["C"]
+            want2 = {}
+            for perm in itertools.permutations(cs):
+                pr = Fraction(1)
+                for i in range(len(perm)):
+                    for j in range(i + 1, len(perm)):
+                        pr *= x2[perm[i]] / (x2[perm[i]] + x2[perm[j]])
+                want2[perm] = pr
+            z2 = sum(want2.values())
+            if set(t2.keys()) != set(want2.keys()) or not all(close(t2[k], want2[k] / z2) for k in want2):
+                oracle.append("second bloc's BT table is not proportional to the product over ordered pairs of x/(x+y) of ITS interval")
         table = g.pdfs_by_bloc["W"]
         want = {}
         for perm in itertools.permutations(cs):
